@@ -15,7 +15,7 @@ TRUSTED = ["the evaluation order (rows in source order, select-list items left t
            "harness-made history is kept as a second, independent oracle)",
            "SETVAR / GETVAR nested inside other expressions, in WHERE or under ASYNC are outside the query-level model (top-level select items only)"]
 RULE = ("histories over 1-4 keys spread across 1-6 select-list positions and 0-10 rows, and sequences of 1-4 queries sharing one "
-        "variable map, each query flat or as a CTE body / derived table / UNION ALL branch / under LIMIT-OFFSET; rows (GETVAR columns, no SETVAR column) and the caller's final map are compared with the Lean store model "
+        "variable map (a third of the queries also read registers inside other expressions: counters, register copies, computed columns), each query flat or as a CTE body / derived table / UNION ALL branch / under LIMIT-OFFSET; rows (GETVAR columns, no SETVAR column) and the caller's final map are compared with the Lean store model "
         "run on the row-major, left-to-right history; non-trivial = a key read after >=2 writes, or across rows/queries")
 
 KEYS = ["k1", "k2", "k3", "weird key", "1", "2.5", "true"]
@@ -44,6 +44,25 @@ def gen_query(rnd, qi):
             sel.append(["item", ["func", "", "setvar", [KEY_SQL.get(it[1], ["str", it[1]]), arg]], "sv", "sv"])
         else:
             sel.append(["item", ["func", "", "getvar", [KEY_SQL.get(it[1], ["str", it[1]])]], it[2], it[2]])
+    # reads NESTED in other expressions: a counter (`SETVAR('cnt', GETVAR('cnt') + 1)`), a register copy
+    # (`SETVAR(k2, GETVAR(k1))`), a computed column over a register — each reads the map as it is at that moment, on every row
+    nested = rnd.random() < 0.3
+    if nested:
+        getv = lambda k: ["func", "", "getvar", [KEY_SQL.get(k, ["str", k])]]
+        for j in range(rnd.randint(1, 3)):
+            kind = rnd.choice(["incr", "copy", "plus", "case"])
+            pos = rnd.randint(0, len(sel))
+            if kind == "incr":
+                it = ["item", ["func", "", "setvar", [["str", "cnt"], ["bin", "plus", getv("cnt"), num(rnd.choice([1, 2]))]]], "sv", "sv"]
+            elif kind == "copy":
+                k1, k2 = rnd.choice(KEYS + ["cnt"]), rnd.choice(KEYS)
+                it = ["item", ["func", "", "setvar", [KEY_SQL.get(k2, ["str", k2]), getv(k1)]], "sv", "sv"]
+            elif kind == "plus":
+                it = ["item", ["bin", "mult", getv("cnt"), num(10)], "n%d_%d" % (qi, j), "n%d_%d" % (qi, j)]
+            else:
+                it = ["item", ["case", [[["cmp", "ge", getv("cnt"), num(2)], ["str", "many"]]], ["str", "few"], {"else": True}],
+                      "n%d_%d" % (qi, j), "n%d_%d" % (qi, j)]
+            sel.insert(pos, it)
     sel.append(item(col("id")))
     q = select(sel, table("t"))
     ops = []
@@ -58,6 +77,8 @@ def gen_query(rnd, qi):
     # the same history through other statement forms: the select list is evaluated for every source row, in order,
     # wherever the SELECT sits (CTE body, derived table, union branch) and whatever window is cut afterwards
     form = rnd.choice(["flat", "flat", "flat", "cte", "derived", "limit", "union"])
+    if nested and form == "derived":
+        form = "cte"        # the derived form lists the output columns by name
     sql = query_sql(q)
     window, passes = None, 1
     if form == "cte":
@@ -73,7 +94,7 @@ def gen_query(rnd, qi):
         sql = sql + " UNION ALL " + sql
         ops = ops + ops
         passes = 2
-    return {"doc": {"t": rows}, "sql": sql, "items": items, "ops": ops, "form": form, "window": window, "passes": passes, "sel": sel}
+    return {"doc": {"t": rows}, "sql": sql, "items": items, "ops": ops, "form": form, "window": window, "passes": passes, "sel": sel, "nested": nested}
 
 
 def explore(chk, rnd, tier):
@@ -83,6 +104,7 @@ def explore(chk, rnd, tier):
     seqs = []
     for _ in range(n):
         init = {k: rnd.choice([0, "init", None]) for k in rnd.sample(KEYS, rnd.randint(0, 2))}
+        init["cnt"] = rnd.choice([0, 0, 5])
         seqs.append({"cur": enc_val(init), "lean": enc_val(init), "qs": [gen_query(rnd, qi) for qi in range(rnd.randint(1, 4))]})
     # round j runs the j-th query of every sequence in one batch, threading each sequence's shared map
     for rnd_i in range(4):
@@ -114,6 +136,8 @@ def explore(chk, rnd, tier):
             nrows = len(qc["doc"]["t"])
             if len(rows) != len(src):
                 bad = "row count"
+            elif qc.get("nested"):
+                chk.count("nested-reads")      # the harness-made history has no values for nested reads: query-level model only
             else:
                 for (ps, ri), row in zip(src, rows):
                     if "sv" in row:
@@ -126,7 +150,7 @@ def explore(chk, rnd, tier):
                             want = None if c is None else dec_val(c)
                             if it[2] not in row or canon(row[it[2]]) != canon(want):
                                 bad = "row %d %s: impl %r model %r" % (ri, it[2], row.get(it[2]), want)
-            if canon(dec_val(g.get("vars"))) != canon(dec_val(l["store"])):
+            if not qc.get("nested") and canon(dec_val(g.get("vars"))) != canon(dec_val(l["store"])):
                 bad = "final variable map differs: impl %s model %s" % (g.get("vars"), l["store"])
             # … and against the query-level model: whole rows (every column) after the window, and the final map
             if lq.get("r") == "ok":
@@ -148,7 +172,13 @@ def explore(chk, rnd, tier):
                                                         "query_index_in_sequence": rnd_i, "detail": bad, "impl": g, "model": l})
                 break
             s["cur"] = g["vars"]
-            s["lean"] = l["store"]
+            if qc.get("nested") and lq.get("r") != "ok":
+                # nested reads the query-level model declines (out of model): the harness history cannot supply the map, so the
+                # sequence ends here
+                chk.count("sequence-cut-at-out-of-model-query")
+                s["qs"] = s["qs"][:rnd_i + 1]
+                continue
+            s["lean"] = lq["store"] if qc.get("nested") else l["store"]
             if (len(qc["doc"]["t"]) >= 2 or rnd_i > 0) and any(i[0] == "set" for i in qc["items"]) and any(i[0] == "get" for i in qc["items"]):
                 nt += 1
     chk.cov["evaluations"] = total
